@@ -12,8 +12,9 @@ CLAIM = dict(
           "constructors, methods calling methods, 得到, chains, and object histories (objects of one type created at different times, updated in "
           "place — 自增, 后增, key writes — from outside and by their own methods, every object displayed after every step), executed by the interpreter and by the model in Coq (result, display trace, "
           "error code, call-stack length, scope depth)."),
-    note=semprop.TB + ("one module only (imports are C15); getters (何为) are not modelled; numbers have no identity in the model: the "
-                       "in-place updates 自增 / 自减 are generated on number properties only and emitted to the model as the read-add-assign "
+    note=semprop.TB + ("one module only (imports are C15); getters (何为) are not modelled; numbers have no identity in the model: 自增 / 自减 "
+                       "are modelled for receivers that are values of their own (literals, operator results: Sem.num_method); on stored numbers "
+                       "the in-place updates are generated for number properties only and emitted to the model as the read-add-assign "
                        "they equal when the property's Number is not aliased (the generator only assigns such properties fresh values and "
                        "never passes them bare to calls, mutators, 输出 or 得到)."),
     technique="Coq proof (control-state balance invariant by induction on fuel) + model/implementation correspondence",
